@@ -75,6 +75,11 @@ class Report:
             self._add("INFO", "R-STRUCTURE", ("pycaption", name), f"{name}: structural rules skipped (spelling not recognised)",
                       {"reason": str(e)[:300], "clause_decided_by": decided_by}, None)
             return None
+        except (TypeError, AttributeError, IndexError, KeyError, ValueError) as e:
+            # the recogniser tripped over a shape it was not written for: the same as "not recognised"
+            self._add("INFO", "R-STRUCTURE", ("pycaption", name), f"{name}: structural rules skipped (spelling not recognised)",
+                      {"reason": f"recogniser: {type(e).__name__}: {e}"[:300], "clause_decided_by": decided_by}, None)
+            return None
 
     def _add(self, verdict, rule, where, construct, detail=None, clause=None):
         module, qualname, line = _where(where)
